@@ -91,3 +91,23 @@ Proof.
   rewrite ?andb_true_iff, ?N.eqb_eq, ?bytes_eqb_eq; split; try (intros H; inversion H; auto);
   intuition congruence.
 Qed.
+
+Definition cdata_eqb (a b : cdata) : bool :=
+  match a, b with
+  | HopCount l c, HopCount l' c' => (l =? l') && (c =? c')
+  | Data x, Data y | Unknown x, Unknown y => bytes_eqb x y
+  | BundleAge x, BundleAge y => x =? y
+  | PreviousNode e, PreviousNode e' => eid_eqb e e'
+  | DecodingError, DecodingError => true
+  | _, _ => false
+  end.
+Definition primary_eqb (p q : primary) : bool :=
+  (p_version p =? p_version q) && (p_flags p =? p_flags q) && crc_eqb (p_crc p) (p_crc q)
+  && eid_eqb (p_dst p) (p_dst q) && eid_eqb (p_src p) (p_src q) && eid_eqb (p_rpt p) (p_rpt q)
+  && (p_time p =? p_time q) && (p_seq p =? p_seq q) && (p_lifetime p =? p_lifetime q)
+  && (p_frag_off p =? p_frag_off q) && (p_total_len p =? p_total_len q).
+Definition canonical_eqb (c d : canonical) : bool :=
+  (c_type c =? c_type d) && (c_num c =? c_num d) && (c_flags c =? c_flags d) && crc_eqb (c_crc c) (c_crc d)
+  && cdata_eqb (c_data c) (c_data d).
+Definition bundle_eqb (a b : bundle) : bool :=
+  primary_eqb (b_primary a) (b_primary b) && forall2b canonical_eqb (b_canonicals a) (b_canonicals b).
